@@ -327,8 +327,8 @@ theorem rep_processBlock (s : State) (b : BlockAbs) (hr : Rep s) : Rep (processB
             obtain ⟨s2, e⟩ := d
             cases e <;> exact hd
 
-theorem rep_processHeader (s : State) (b : BlockAbs) (hr : Rep s) : Rep (processHeader s b).1 := by
-  unfold processHeader
+theorem rep_processHeaderCore (s : State) (b : BlockAbs) (hr : Rep s) : Rep (processHeaderCore s b).1 := by
+  unfold processHeaderCore
   split
   · exact hr
   · split
@@ -338,6 +338,29 @@ theorem rep_processHeader (s : State) (b : BlockAbs) (hr : Rep s) : Rep (process
       · split
         · exact hr
         · unfold Rep at *; exact hr
+
+/-- `ProcessBlockHeader` = its index effect, then possibly a new best-header tip -/
+theorem processHeader_shape (s : State) (b : BlockAbs) :
+    ∃ x, (processHeader s b).1 = { (processHeaderCore s b).1 with bestHdr := x } := by
+  unfold processHeader
+  generalize processHeaderCore s b = r
+  obtain ⟨s1, res⟩ := r
+  have hself : s1 = { s1 with bestHdr := s1.bestHdr } := by cases s1; rfl
+  have hupd : ∃ x, (updateBestHdr s1 b).1 = { s1 with bestHdr := x } := by
+    unfold updateBestHdr
+    split
+    · exact ⟨s1.bestHdr, hself⟩
+    · split
+      · exact ⟨b.hash, rfl⟩
+      · split
+        · exact ⟨s1.bestHdr, hself⟩
+        · exact ⟨b.hash, rfl⟩
+  cases res <;> first | exact hupd | exact ⟨s1.bestHdr, hself⟩
+
+theorem rep_processHeader (s : State) (b : BlockAbs) (hr : Rep s) : Rep (processHeader s b).1 := by
+  obtain ⟨x, hx⟩ := processHeader_shape s b
+  rw [hx]
+  exact rep_processHeaderCore s b hr
 
 theorem rep_foldl_setSt {α : Type} (l : List α) (g : State → α → State)
     (hg : ∀ s a, SameChain s (g s a)) (s : State) (hr : Rep s) : Rep (l.foldl g s) := by
